@@ -2427,6 +2427,6 @@ Theorem oir_decoder_read_tag : forall fuel b sz ps, (90 + length b <= fuel)%nat 
   | COob => RFail FOob | CUb => RFail FUb end.
 Proof.
   intros fuel b sz ps Hf Hsz Hps Bb. run_enter "decoder_read_tag".
-  erewrite ocall_decoder_read_tag; [|lia|reflexivity|exact Hsz|exact Hps|exact Bb].
+  erewrite (ocall_decoder_read_tag _ _ _ b); [|lia|reflexivity|exact Hsz|exact Hps|exact Bb].
   split_res2; reflexivity.
 Qed.
